@@ -106,7 +106,7 @@ impl StateSpec {
                 value: Some(val_att(v)),
             });
         }
-        let mut place = |k: u16, shard: u8, p: &Prog, ops: &mut Vec<WarpOp>| {
+        let place = |k: u16, shard: u8, p: &Prog, ops: &mut Vec<WarpOp>| {
             let node = NodeKey { warp_id: w, local_id: ids::pnode(k, shard) };
             ops.push(WarpOp::UpsertNode { node, record: NodeRecord { ty: ids::ty(1) } });
             ops.push(WarpOp::SetAttachment { key: AttachmentKey::node_alpha(node), value: Some(p.attachment()) });
@@ -171,7 +171,8 @@ fn gen_inst(rng: &mut Rng, w: u8, portal: Option<PortalSpec>, node_pool: u8, rep
     let mut edges = Vec::new();
     for e in 0..ids::N_EDGES {
         if rng.chance(1, 2) {
-            let from = *rng.pick(&present);
+            // bias sources towards the instance root so that a good share of the content is reachable
+            let from = if rng.chance(1, 3) { N::R(w) } else { *rng.pick(&present) };
             let to = if rng.chance(1, 20) { N::D(rng.below(u64::from(ids::N_NODES)) as u8) } else { *rng.pick(&present) };
             edges.push((e, from, to, rng.below(3) as u8));
         }
